@@ -39,18 +39,47 @@ const (
 )
 
 var (
-	chainCfg     *types.Chain33Config
-	chainCfgOnce sync.Once
+	chainCfgs  = map[bool]*types.Chain33Config{}
+	chainCfgMu sync.Mutex
 )
 
-func getCfg() *types.Chain33Config {
-	chainCfgOnce.Do(func() {
-		s := types.GetDefaultCfgstring()
-		s = strings.Replace(s, "[p2p]\nenable=false", "[p2p]\ntypes=[\"dht\"]\nenable=false", 1)
-		chainCfg = types.NewChain33Config(s)
-	})
-	return chainCfg
+// getCfg: the default configuration with p2p types ["dht"], or ["dht","gossip"] (dual) where the
+// p2p manager de-duplicates broadcasts across the two networks
+func getCfg(dual bool) *types.Chain33Config {
+	chainCfgMu.Lock()
+	defer chainCfgMu.Unlock()
+	if c, ok := chainCfgs[dual]; ok {
+		return c
+	}
+	s := types.GetDefaultCfgstring()
+	ty := `types=["dht"]`
+	if dual {
+		ty = `types=["dht","gossip"]`
+	}
+	s = strings.Replace(s, "[p2p]\nenable=false", "[p2p]\n"+ty+"\nenable=false", 1)
+	c := types.NewChain33Config(s)
+	chainCfgs[dual] = c
+	return c
 }
+
+// blacklist stands in for the connection blacklist of the p2p module
+type blacklist struct {
+	mu sync.Mutex
+	m  map[string]time.Duration
+}
+
+func (b *blacklist) Add(s string, t time.Duration) {
+	b.mu.Lock()
+	b.m[s] = t
+	b.mu.Unlock()
+}
+func (b *blacklist) Has(s string) bool {
+	b.mu.Lock()
+	defer b.mu.Unlock()
+	_, ok := b.m[s]
+	return ok
+}
+func (b *blacklist) List() *types.Blacklist { return &types.Blacklist{} }
 
 type posted struct {
 	pid   string
@@ -97,7 +126,7 @@ func newIdentity() (crypto.PrivKey, peer.ID) {
 }
 
 func newWorld(seed int64, bid string, opts map[string]string) (*world, error) {
-	cfg := getCfg()
+	cfg := getCfg(opts["dual"] == "1")
 	w := &world{seed: seed, bid: bid, opts: opts, marks: make(chan int64, 16)}
 	w.q = queue.New("verif")
 	w.q.SetConfig(cfg)
@@ -132,6 +161,7 @@ func newWorld(seed int64, bid string, opts map[string]string) (*world, error) {
 		SubConfig:   sub,
 		Ctx:         ctx,
 	}
+	env.ConnBlackList = &blacklist{m: map[string]time.Duration{}}
 	env.API, _ = client.New(w.q.Client(), nil)
 	env.Pubsub, err = net.NewPubSub(ctx, hst, &p2pty.PubSubConfig{})
 	if err != nil {
@@ -145,7 +175,7 @@ func newWorld(seed int64, bid string, opts map[string]string) (*world, error) {
 	prototypes.ClearEventHandler()
 	w.h = broadcast.VerifNew(env, opts["realtick"] != "1")
 	w.out = w.h.SubOutgoing()
-	for i := 0; i < 4; i++ {
+	for i := 0; i < 6; i++ {
 		_, id := newIdentity()
 		w.peers = append(w.peers, id)
 	}
@@ -204,6 +234,11 @@ func (w *world) startBlockchain() {
 					w.mu.Lock()
 					w.posted = append(w.posted, posted{pid: bp.Pid, block: bp.Block})
 					w.mu.Unlock()
+					if h := bp.Block.GetHeight(); h >= 2000 && h < 2400 {
+						// blocks of the malformed classes are refused by the chain: their publisher gets denied
+						msg.Reply(c.NewMessage("p2p", types.EventReply, &types.Reply{Msg: []byte(types.ErrBlockHashNoMatch.Error())}))
+						break
+					}
 				}
 				msg.Reply(c.NewMessage("p2p", types.EventReply, &types.Reply{IsOk: true}))
 			case evMarker:
